@@ -88,22 +88,57 @@ let emit_rk buf id routine et form upper (n, k) (ka, da) (kc, dc) (al, be) =
   bump (routine ^ "/kindA=" ^ ka); bump (routine ^ "/kindC=" ^ kc); bump (routine ^ (if upper then "/upper" else "/lower"));
   List.iter (fun (nm, v) -> if v <= 1 then bump (Printf.sprintf "%s/%s=%d" routine nm v)) [ ("n", n); ("k", k) ]
 
-let emit_trsm buf id et (left, lower, unit) (p, q) (ka, da) (kb, db) al =
-  Buffer.add_string buf (Printf.sprintf "case %s\nop trsm %s inplace\nflags %s %s %s\nalpha %d %d\nbeta 0 0\n" id et
+let emit_trsm ?(form = "inplace") buf id et (left, lower, unit) (p, q) (ka, da) (kb, db) al =
+  (* the operator spellings fix the side themselves: b /= T is the right side, b |= T the left one *)
+  let left = (match form with "opdiv" -> false | "opor" -> true | _ -> left) in
+  let unit = if form = "inplace" then unit else false in
+  Buffer.add_string buf (Printf.sprintf "case %s\nop trsm %s %s\nflags %s %s %s\nalpha %d %d\nbeta 0 0\n" id et form
                            (if left then "left" else "right") (if lower then "lower" else "upper") (if unit then "unit" else "nonunit") (fst al) (snd al));
   let m = if left then p else q in
   emit_mat buf "A" (mat_spec m m da ka);
   emit_mat buf "B" (mat_spec p q db kb);
   Buffer.add_string buf "end\n";
-  bump "trsm/inplace"; bump ("trsm/et=" ^ et); bump (Printf.sprintf "trsm/decoA=%c" da); bump (Printf.sprintf "trsm/decoB=%c" db);
+  bump ("trsm/" ^ form); bump ("trsm/et=" ^ et); bump (Printf.sprintf "trsm/decoA=%c" da); bump (Printf.sprintf "trsm/decoB=%c" db);
   bump ("trsm/kindA=" ^ ka); bump ("trsm/kindB=" ^ kb);
   bump (if left then "trsm/left" else "trsm/right"); bump (if lower then "trsm/lower" else "trsm/upper"); bump (if unit then "trsm/unit" else "trsm/nonunit");
   List.iter (fun (nm, v) -> if v <= 1 then bump (Printf.sprintf "trsm/%s=%d" nm v)) [ ("p", p); ("q", q) ]
 
+(* ---- expression cases (harness/common/c13_expr.hpp) ---- *)
+let show_scales (l : (int * int) list) = if l = [] then "-" else String.concat ";" (List.map (fun (a, b) -> Printf.sprintf "%d,%d" a b) l)
+(* the decorated shape: a decoration string transposes when it has an odd number of T / H / t *)
+let decos_transposes (ds : string) = (List.length (List.filter (fun c -> c = 'T' || c = 'H' || c = 't') (List.init (String.length ds) (String.get ds)))) mod 2 = 1
+(* base view of logical (decorated) shape p x q *)
+let mat_spec_decos p q ds kind = if decos_transposes ds then mat_spec q p 'N' kind else mat_spec p q 'N' kind
+
+let emit_gemm_expr buf id et base cons (m, n, k) (ka, da) (kb, db) (kc, dc) al scales (ibs : (int * int) * (int * int) * (int * int)) (arr : int * int) =
+  let ((a0, a1), (b0, b1), (c0, c1)) = ibs in
+  Buffer.add_string buf (Printf.sprintf "case %s\nop gemm %s expr\nalpha %d %d\nbeta 0 0\n" id et (fst al) (snd al));
+  Buffer.add_string buf (Printf.sprintf "tree base=%s scales=%s consume=%s dA=%s dB=%s dC=%s ibA=%d,%d ibB=%d,%d ibC=%d,%d arr=%dx%d\n" base (show_scales scales) cons
+                           da db dc a0 a1 b0 b1 c0 c1 (fst arr) (snd arr));
+  emit_mat buf "A" (mat_spec_decos m k da ka);
+  emit_mat buf "B" (mat_spec_decos k n db kb);
+  emit_mat buf "C" (mat_spec_decos m n dc kc);
+  Buffer.add_string buf "end\n";
+  bump ("gemm/expr"); bump ("gemm/expr/base=" ^ base); bump ("gemm/expr/consume=" ^ cons); bump (Printf.sprintf "gemm/expr/depth=%d" (List.length scales));
+  bump ("gemm/expr/et=" ^ et); bump (Printf.sprintf "gemm/expr/decos=%d,%d" (String.length da) (String.length db));
+  if a0 + a1 + b0 + b1 + c0 + c1 > 0 then bump "gemm/expr/index-bases";
+  List.iter (fun (nm, v) -> if v <= 1 then bump (Printf.sprintf "gemm/expr/%s=%d" nm v)) [ ("m", m); ("n", n); ("k", k) ]
+
+let emit_gemv_expr buf id et base cons (m, n) (km, dm) kx ky al (ib : int * int) arr =
+  Buffer.add_string buf (Printf.sprintf "case %s\nop gemv %s expr\nalpha %d %d\nbeta 0 0\n" id et (fst al) (snd al));
+  Buffer.add_string buf (Printf.sprintf "tree base=%s consume=%s dM=%s ibM=%d,%d arr=%d\n" base cons dm (fst ib) (snd ib) arr);
+  emit_mat buf "M" (mat_spec_decos m n dm km);
+  emit_vec buf "X" (vec_spec n kx);
+  emit_vec buf "Y" (vec_spec m ky);
+  Buffer.add_string buf "end\n";
+  bump ("gemv/expr"); bump ("gemv/expr/base=" ^ base); bump ("gemv/expr/consume=" ^ cons); bump ("gemv/expr/et=" ^ et);
+  List.iter (fun (nm, v) -> if v <= 1 then bump (Printf.sprintf "gemv/expr/%s=%d" nm v)) [ ("m", m); ("n", n) ]
+
 let level1_ops = [ "dot"; "axpy"; "scal"; "copy"; "swap"; "nrm2"; "asum"; "iamax" ]
 
-let emit_l1 buf id op et form len kx ky (dx, dy) al =
+let emit_l1 ?(scales = []) buf id op et form len kx ky (dx, dy) al =
   Buffer.add_string buf (Printf.sprintf "case %s\nop %s %s %s\nalpha %d %d\nbeta 0 0\n" id op et form (fst al) (snd al));
+  if scales <> [] then Buffer.add_string buf (Printf.sprintf "tree scales=%s\n" (show_scales scales));
   let (a, b, c, d, _) = vec_spec len kx in
   emit_vec buf "X" (a, b, c, d, dx);
   let (a, b, c, d, _) = vec_spec len ky in
@@ -222,6 +257,84 @@ let gen (tier : string) (prog : Buffer.t) =
       | _ -> "inplace" in
     let sc = if cplx then pick cscalars else pick scalars in
     emit_l1 prog (id "l") op et form len (pick vk) (pick vk) (dx, dy) sc
+  done;
+  (* (5) the expression layer: lazy ranges, operators on them, decorated operands, consuming statements *)
+  let rscal () = weighted [ (3, (2, 0)); (2, (-1, 0)); (2, (3, 0)); (2, (1, 0)); (1, (0, 0)) ] in
+  let cscal () = weighted [ (3, (2, 0)); (3, (-1, 1)); (2, (0, 1)); (2, (1, -1)); (1, (1, 0)); (1, (0, 0)) ] in
+  let scal cplx = if cplx then cscal () else rscal () in
+  let letter cplx = if cplx then weighted [ (3, 'N'); (4, 'T'); (2, 'J'); (4, 'H'); (1, 't'); (1, 'j') ]
+                    else weighted [ (4, 'N'); (5, 'T'); (1, 'J'); (1, 'H'); (1, 't'); (1, 'j') ] in
+  let decos cplx =
+    let n = weighted [ (3, 0); (10, 1); (4, 2); (2, 3) ] in
+    String.init n (fun _ -> letter cplx) in
+  let out_decos () = let n = weighted [ (6, 0); (5, 1); (2, 2) ] in String.init n (fun _ -> pick [ 'N'; 'T'; 't' ]) in
+  let ibase () = if chance 30 then (rnd 4, rnd 4) else (0, 0) in
+  let nxg = if quick then 3200 else 45000 in
+  for _ = 1 to nxg do
+    let et = weighted [ (2, "s"); (4, "d"); (5, "z") ] in
+    let cplx = is_complex et in
+    let base = weighted [ (3, "gemm"); (1, "star") ] in
+    let cons = weighted [ (4, "assign"); (1, "assign_rv"); (4, "pluseq"); (2, "construct"); (1, "plus"); (3, "arr_assign"); (2, "arr_pluseq") ] in
+    let (m, n, k) = (size (), size (), size ()) in
+    let depth = weighted [ (3, 0); (5, 1); (3, 2); (1, 3) ] in
+    let scales = List.init depth (fun _ -> scal cplx) in
+    let arr = (match cons with
+               | "arr_pluseq" -> (m, n)
+               | "arr_assign" -> weighted [ (4, (m, n)); (2, (if m <> n then (n, m) else (1, m * n))); (1, (m + 1, n)); (1, (0, 0)) ]
+               | _ -> (0, 0)) in
+    (* an index base on the columns of b would become the index base of the range and change the branch of array::operator= *)
+    let ibs = (ibase (), (if cons = "arr_assign" then (0, 0) else ibase ()), ibase ()) in
+    emit_gemm_expr prog (id "xg") et base cons (m, n, k) (kind (), decos cplx) (kind (), decos cplx) (kind (), out_decos ()) (scal cplx) scales ibs arr
+  done;
+  let nxv = if quick then 1500 else 20000 in
+  for _ = 1 to nxv do
+    let et = weighted [ (2, "s"); (3, "d"); (2, "c"); (4, "z") ] in
+    let cplx = is_complex et in
+    let base = weighted [ (5, "gemv"); (3, "pct_scaled"); (2, "pct") ] in
+    let cons = if base = "pct" then pick [ "construct"; "plus" ]
+               else weighted [ (4, "assign"); (1, "assign_rv"); (4, "pluseq"); (2, "construct"); (1, "plus"); (3, "arr_assign"); (2, "arr_pluseq") ] in
+    let (m, n) = (size (), size ()) in
+    let arr = (match cons with "arr_pluseq" -> m | "arr_assign" -> weighted [ (4, m); (1, m + 1); (1, 0) ] | _ -> 0) in
+    emit_gemv_expr prog (id "xv") et base cons (m, n) (kind (), decos cplx) (pick vk) (pick vk) (scal cplx) (ibase ()) arr
+  done;
+  let nxl = if quick then 1500 else 20000 in
+  for _ = 1 to nxl do
+    let op = weighted [ (5, "axpy"); (3, "dot"); (1, "scal"); (1, "copy"); (1, "nrm2") ] in
+    let et = pick [ "s"; "d"; "c"; "z" ] in
+    let cplx = is_complex et in
+    let len = weighted [ (2, 0); (3, 1); (3, 2); (3, 3); (2, 5) ] in
+    let dx = if cplx && op = "dot" && chance 40 then 'C' else 'N' in
+    let dy = if cplx && op = "dot" && dx = 'N' && chance 40 then 'C' else 'N' in
+    let form = match op with
+      | "axpy" -> pick [ "range_plus"; "range_minus"; "rescaled_plus"; "rescaled_minus"; "plain_plus"; "plain_minus"; "call1"; "binplus"; "binminus" ]
+      | "dot" -> pick [ "plus"; "comma"; "times"; "times"; "eq"; "elem" ]
+      | "scal" -> pick [ "range"; "iter" ]
+      | "nrm2" -> pick [ "plus"; "opabs"; "opnorm" ]
+      | _ -> "shift" in
+    let scales = if form = "rescaled_plus" || form = "rescaled_minus" || form = "times" then List.init (1 + rnd 3) (fun _ -> scal cplx) else [] in
+    emit_l1 ~scales prog (id "xl") op et form len (pick vk) (pick vk) (dx, dy) (scal cplx)
+  done;
+  let nx3 = if quick then 1200 else 16000 in
+  for _ = 1 to nx3 do
+    if chance 55 then begin
+      let et = pick [ "s"; "d"; "c"; "z" ] in
+      let cx = is_complex et in
+      let da = if cx then pick [ 'N'; 'T'; 'J'; 'H' ] else pick [ 'N'; 'T' ] in
+      let db = if cx && (da = 'N' || da = 'T') then pick [ 'N'; 'T'; 'N'; 'T'; 'J'; 'H' ] else pick [ 'N'; 'T' ] in
+      let form = pick [ "nonunit5"; "tri"; "opdiv"; "opor" ] in
+      emit_trsm ~form prog (id "xt") et (chance 50, chance 50, false) (size (), size ()) (kind (), da) (kind (), db)
+        (if form = "opdiv" || form = "opor" then (1, 0) else scal cx)
+    end else if chance 30 then
+      emit_rk prog (id "xy") "syrk" (pick [ "s"; "d"; "c"; "z" ]) "nobeta" (chance 50) (size (), size ()) (kind (), pick [ 'N'; 'T' ]) (kind (), pick [ 'N'; 'T' ])
+        (rscal (), (0, 0))
+    else begin
+      let et = pick [ "c"; "z"; "z"; "d" ] in
+      let cx = is_complex et in
+      let form = if not cx then "nobeta" else if et = "c" then pick [ "nobeta"; "value" ] else pick [ "nobeta"; "both1"; "value"; "value1" ] in
+      emit_rk prog (id "xh") "herk" et form (chance 50) (size (), size ())
+        (kind (), (if cx then pick [ 'N'; 'T'; 'J'; 'H' ] else pick [ 'N'; 'T' ])) (kind (), (if cx then pick [ 'N'; 'T'; 'N'; 'T'; 'J'; 'H' ] else pick [ 'N'; 'T' ]))
+        (rscal (), (0, 0))
+    end
   done
 
 (* ------------------------------------------------------------------------------------------ *)
@@ -246,12 +359,14 @@ type qinfo = { routine : string; et : string; form : string; debug : bool; al : 
 let parse_pair s = match String.split_on_char ',' s with [ a; b ] -> (int_of_string a, int_of_string b) | _ -> (0, 0)
 let after_eq s = match String.index_opt s '=' with Some k -> String.sub s (k + 1) (String.length s - k - 1) | None -> s
 
-let run_case (obs : Buffer.t) (id : string) (q : qinfo) (mats : (char * mat) list) (vecs : (char * vec) list) =
+let run_case (obs : Buffer.t) (id : string) (q : qinfo) (tree : string list) (mats : (char * mat) list) (vecs : (char * vec) list) =
   let pr fmt = Printf.ksprintf (fun s -> Buffer.add_string obs s) fmt in
   let mat_name = function 1 -> 'A' | 2 -> 'B' | _ -> 'C' in
   ignore mat_name;
   let outcome_line s = pr "O %s %s\n" id s in
   match q.routine with
+  | "gemm" when q.form = "expr" -> C13_expr.run_gemm obs id q.et q.debug q.al tree mats
+  | "gemv" when q.form = "expr" -> C13_expr.run_gemv obs id q.et q.debug q.al tree mats vecs
   | "gemm" ->
       (match (List.assoc_opt 'A' mats, List.assoc_opt 'B' mats) with
        | Some a, Some b ->
@@ -312,14 +427,14 @@ let run_case (obs : Buffer.t) (id : string) (q : qinfo) (mats : (char * mat) lis
                 outcome_line "outcome=ok why=-")
        | _ -> outcome_line "outcome=model-error why=missing-operand")
   | "syrk" | "herk" | "trsm" -> C13_level3.run obs id q.routine q.et q.debug q.form q.flags q.al q.be mats
-  | _ -> C13_level1.run obs id q.routine q.et q.form q.al vecs
+  | _ -> C13_level1.run obs id q.routine q.et q.form q.al tree vecs
 
 let run_text (text : string) (obs : Buffer.t) =
-  let cur_id = ref "" and q = ref None and mats = ref [] and vecs = ref [] in
+  let cur_id = ref "" and q = ref None and mats = ref [] and vecs = ref [] and tree = ref [] in
   List.iter (fun line ->
     match split line with
     | "Q" :: id :: routine :: et :: form :: dbg :: a :: b :: rest ->
-        cur_id := id; mats := []; vecs := [];
+        cur_id := id; mats := []; vecs := []; tree := [];
         let flags = match rest with f :: _ -> String.split_on_char ',' (after_eq f) | [] -> [] in
         q := Some { routine; et; form; debug = (after_eq dbg = "1"); al = parse_pair (after_eq a); be = parse_pair (after_eq b); flags }
     | [ "D"; id; nm; w; s0; s1; rows; cols; cj ] when id = !cur_id ->
@@ -327,8 +442,9 @@ let run_text (text : string) (obs : Buffer.t) =
                            cols = z (int_of_string cols); mconj = (cj = "1") }) :: !mats
     | [ "V"; id; nm; w; inc; len; cj ] when id = !cur_id ->
         vecs := (nm.[0], { vbase = z (parse_where w); inc = z (int_of_string inc); len = z (int_of_string len); vconj = (cj = "1") }) :: !vecs
+    | "T" :: id :: rest when id = !cur_id -> tree := rest
     | "E" :: id :: _ when id = !cur_id ->
-        (match !q with Some qi -> run_case obs id qi !mats !vecs | None -> ());
+        (match !q with Some qi -> run_case obs id qi !tree !mats !vecs | None -> ());
         q := None
     | _ -> ()) (String.split_on_char '\n' text)
 
